@@ -1290,18 +1290,30 @@ Proof.
   rewrite IH, E. reflexivity.
 Qed.
 
+Lemma fres_eq_trans a b c : fres_eq a b -> fres_eq b c -> fres_eq a c.
+Proof.
+  destruct a, b, c; cbn [fres_eq]; try contradiction; try (intros; exact I).
+  - intros H1 H2. rewrite H1. exact H2.
+  - intros H1 H2. rewrite H1. exact H2.
+  - intros [A1 [A2 A3]] [B1 [B2 B3]]. rewrite A1, A2, A3. auto.
+  - intros [A1 [A2 A3]] [B1 [B2 B3]]. rewrite A1, A2, A3. auto.
+Qed.
+
+Lemma spec_avg_f_ext {A} (g h : A -> Q) : (forall a, g a == h a) ->
+  forall l, fres_eq (spec_avg_f (map g l)) (spec_avg_f (map h l)).
+Proof.
+  intros E l. destruct l as [|a l]; [exact I|].
+  change (map g (a :: l)) with (g a :: map g l). change (map h (a :: l)) with (h a :: map h l).
+  cbn [spec_avg_f fres_eq]. unfold qmean.
+  change (g a :: map g l) with (map g (a :: l)). change (h a :: map h l) with (map h (a :: l)).
+  rewrite !qlen_map, (qsum_map_ext g h E). reflexivity.
+Qed.
+
 Lemma avg_dec_f scale xs : fres_eq (a_final (avg_dec scale) (al_avgz xs)) (spec_avg_dec scale xs).
 Proof.
-  pose proof (avgd_f (pow10 scale) xs (pow10_pos scale)) as H.
-  unfold avg_dec, spec_avg_dec, spec_avg_d in *.
-  destruct xs as [|x r]; [exact H|].
-  destruct (a_final (avg_d (pow10 scale)) (al_avgz (x :: r))) as [|q|q|c vx vy|c vx vy|]; cbn in H |- *; try exact H.
-  rewrite H. unfold qmean. rewrite !qlen_map.
-  change (inject_Z x / pow10 scale :: map (fun u => inject_Z u / pow10 scale) r)
-    with (map (fun u => inject_Z u / pow10 scale) (x :: r)).
-  change (dec_value scale x :: map (dec_value scale) r) with (map (dec_value scale) (x :: r)).
-  rewrite (qsum_map_ext (dec_value scale) (fun u => inject_Z u / pow10 scale) (dec_value_pow10 scale)).
-  reflexivity.
+  apply (fres_eq_trans _ (spec_avg_d (pow10 scale) xs)).
+  - exact (avgd_f (pow10 scale) xs (pow10_pos scale)).
+  - unfold spec_avg_d, spec_avg_dec. apply spec_avg_f_ext. intros u. symmetry. apply dec_value_pow10.
 Qed.
 
 Lemma avg_dec_never_wrong scale :
